@@ -541,11 +541,12 @@ def guardedValueSrc : List Char :=
    "(when true (:= Report.a (+ 1 (:= Report.b (if (> Ack.bytes_acked 0) 5))))" ++
    " (:= Report.a (+ (:= Report.b (ewma 2 Ack.bytes_acked)) (:= c (!if (> Report.b 3) Cwnd)))))").toList
 
-/-- it is well typed (the former check refused it, and it is outside the fragment of the semantic
-theorem) … -/
+/-- it is well typed (the former check refused it; it is inside the fragment of the semantic theorem since
+guarded assignments are admitted as values: no operator here reads, as its left operand, a variable its right
+operand assigns) … -/
 theorem guardedValueSrc_wellTyped :
     wtSrc guardedValueSrc = some true ∧ wtSrcStratified guardedValueSrc = some false ∧
-      inOracleSrc guardedValueSrc = some false := by
+      inOracleSrc guardedValueSrc = some true := by
   decide +kernel
 
 /-- … hence accepted, by the theorem -/
